@@ -153,6 +153,10 @@ def sweep(res, rng, n_decks, n_points, tag):
         n_univ = len({c['u'] for c in deck['cells']})
         res.seen((text, tuple(options)), nontrivial=deep > 0)
         res.count(f'{tag}:universes:{min(n_univ, 6)}')
+        n_empty = sum(1 for c in deck['cells'] if c['expr'][0] == '*'
+                      and {-l[1] for l in c['expr'][1:] if l[0] == 's'}
+                      & {l[1] for l in c['expr'][1:] if l[0] == 's'})
+        res.count(f'{tag}:decks-with-empty-filler-cell', 1 if n_empty else 0)
         res.count(f'{tag}:options:{"+".join(o[16:] for o in options) or "default"}')
         res.count(f'{tag}:points-checked', checked)
         res.count(f'{tag}:points-in-filled-cells', deep)
@@ -200,11 +204,13 @@ def run(res, tier, seed, proofs_ok):
         'sweep: rendered decks with nested universes (partitions by BSP over '
         'planes, spheres and cylinders; FILL transformation by number / '
         'inline 3 / inline 12 / starred; TRCL-only; both; shared poses; '
+        'patently empty cells in filling universes; '
         'IMP=0 level-0 cells), 150+ points per deck; non-trivial = a point '
         'located below level 0')
 
-    # 1. known findings (the empty-filler defect of DESIGN 8 #7 is C08/C01's
-    #    and the generators avoid it)
+    # 1. known findings (the empty-filler defect of DESIGN 8 #7 is fixed in
+    #    /repo 3f9f4fd; the sweep generator puts empty cells in filling
+    #    universes)
     for name, deck, options in negative_universe_witnesses():
         fails = negative_universe_failures(deck, options)
         res.count('witness:negative_universe_number')
